@@ -231,10 +231,15 @@ func (s *Sim) answerQuery(r *Req, outcome string) {
 			s.refetchFailed[v] = true
 		} else {
 			delete(s.refetchFailed, v)
+			delete(s.failedRefetch, v)
 		}
 		v.Stream = append(v.Stream, &StreamEv{Pos: len(v.Stream), Kind: "snap", After: snap, DlvCut: -1})
 		tr.enqueueReply(r, r.Name, []byte(`{"result":`+snap.serviceJSON()+`}}`), nil, nil)
 	default: // events
+		if s.maybeResetting(r, v) {
+			// dropped while a reset re-fetch of the variant is under way
+			s.refetchFailed[v] = true
+		}
 		var parts []string
 		if qe != nil {
 			for _, m := range qe.Events[r.Query] {
@@ -850,14 +855,65 @@ func (s *Sim) resetQuiescence() {
 	// here: none at all for a reset without access patterns and without other triggers
 }
 
+// noteFailedRefetch: a re-fetch of v ends without a usable answer. If the
+// service had changed v silently the gateway's copy stays out of step; if not,
+// it is still in step unless events were dropped while the re-fetch was under
+// way (see staleAfterFailedRefetch).
+func (s *Sim) noteFailedRefetch(r *Req, v *Variant) {
+	s.sawDerived[v] = true
+	if v.Dirty || s.refetchFailed[v] {
+		s.refetchFailed[v] = true
+		return
+	}
+	s.failedRefetch[v] = append(s.failedRefetch[v], r)
+}
+
+// staleAfterFailedRefetch: the gateway's copy of v may be out of step with
+// what the service announced because a re-fetch failed: the service had
+// changed it silently, or state events reached the gateway while the re-fetch
+// was under way (the gateway drops them, counting on the answer).
+func (s *Sim) staleAfterFailedRefetch(v *Variant) bool {
+	if s.refetchFailed[v] {
+		return true
+	}
+	for _, r := range s.failedRefetch[v] {
+		if !r.Delivered {
+			return true
+		}
+		// the gateway starts dropping when it handles the reset, which may be
+		// long before the request leaves the reset throttle
+		from := r.Seq
+		for _, rec := range s.W.Resets {
+			if rec.Dlv && rec.DlvSeq < from {
+				for _, p := range rec.Resources {
+					if matchPattern(p, v.Name) {
+						from = rec.DlvSeq
+						break
+					}
+				}
+			}
+		}
+		for _, e := range v.Stream {
+			if e.Kind == "snap" || e.Derived || e.DlvCut < 0 {
+				continue
+			}
+			if e.DlvSeq > from && (e.DlvSeq < r.DlvSeq || !s.processed(v.Name, r.DlvCut)) {
+				return true
+			}
+		}
+	}
+	return false
+}
+
 // noteRefetchAnswer is called when a re-fetch is answered.
 func (s *Sim) noteRefetchAnswer(r *Req, v *Variant, before *State, ok bool) {
 	s.sawDerived[v] = true
 	if !ok {
-		s.refetchFailed[v] = true
+		s.noteFailedRefetch(r, v)
 		return
 	}
 	delete(s.refetchFailed, v)
+	delete(s.failedRefetch, v)
 	same := before != nil && jsonEqual(before.clientJSON(protoLatest), v.Actual.clientJSON(protoLatest))
 	s.Refetches = append(s.Refetches, &RefetchRec{Req: r, V: v, Same: same, StreamLen: len(v.Stream)})
 }
